@@ -79,6 +79,9 @@ pub fn run_grp() {
         // all methods of inherent impls on G
         let mut methods: Vec<&ImplItemMethod> = vec![];
         for i in &items { if let Item::Impl(im) = i { if im.trait_.is_none() && norm(&im.self_ty).starts_with("G<") { for ii in &im.items { if let ImplItem::Method(m) = ii { methods.push(m); } } } } }
+        // what a view obtained through as_ref! / as_mut! / into! can be used as: its `impl ..` type must name every MANDATORY trait and every requested one
+        let mut sigfails: Vec<String> = vec![];
+        let raw_of = |f: &String| -> String { f.split('=').next().unwrap().trim().chars().take_while(|c| c.is_alphanumeric() || *c == '_').collect() };
         for mask in 1..(1i64 << nopt) {
             // the macro side: the requested traits in REVERSE input order (the macro must sort them itself)
             let req: Vec<&String> = (0..nopt).rev().filter(|b| mask & (1 << b) != 0).map(|b| &names[nmand + b]).collect();
@@ -93,6 +96,19 @@ pub fn run_grp() {
                 match methods.iter().find(|m| m.sig.ident == fname) {
                     None => row.extend([0, -1, -1]),
                     Some(m) => {
+                        if matches!(pre, "as_ref" | "as_mut" | "into") && sigfails.len() < 3 {
+                            let out_ty = norm(&m.sig.output);
+                            if let Some(p) = out_ty.find("impl") {
+                                let bounds = &out_ty[p + 4..];
+                                let names_trait = |t: &str| bounds.split(|c: char| !(c.is_alphanumeric() || c == '_')).any(|tok| tok == t);
+                                for (k, f) in full.iter().enumerate() {
+                                    let wanted = k < nmand || mask & (1 << (k - nmand)) != 0;
+                                    if wanted && !names_trait(&raw_of(f)) {
+                                        sigfails.push(format!("{}_(request_mask_{}):_the_view's_type_`impl_..`_does_not_name_the_{}_trait_{}:_its_methods_cannot_be_called_on_the_result", fname, mask, if k < nmand { "MANDATORY" } else { "requested" }, raw_of(f)));
+                                    }
+                                }
+                            }
+                        }
                         let vm = if pre == "check" { -1 } else { validated_mask(m, &lc, nmand) };
                         // the struct the function builds (cast/into): non-Option mask among the optional traits
                         let mut nonopt = -1;
@@ -129,7 +145,8 @@ pub fn run_grp() {
             row.push(-5); row.extend(with_fr); row.push(-6); row.extend(final_fr);
             rows.push(row);
         }
-        println!("{} # fails=-", rows.iter().map(|r| r.iter().map(|v| v.to_string()).collect::<Vec<_>>().join(" ")).collect::<Vec<_>>().join(" ; "));
+        println!("{} # fails={}", rows.iter().map(|r| r.iter().map(|v| v.to_string()).collect::<Vec<_>>().join(" ")).collect::<Vec<_>>().join(" ; "),
+                 if sigfails.is_empty() { "-".to_string() } else { sigfails.join("|") });
     }
 }
 
